@@ -44,6 +44,7 @@ func runSequential(start time.Time, level slog.Level, input []byte) []handler.Me
 	go func() {
 		for m := range out {
 			msgs = append(msgs, m)
+			tick()
 		}
 		close(done)
 	}()
@@ -66,6 +67,9 @@ type streamCase struct {
 	Direct bool `json:"direct,omitempty"`
 	// expectation (C03/C12)
 	Expect []expSeg `json:"expect,omitempty"`
+	// C12: the uncorrupted stream and the delivery index of the victim
+	Clean  string `json:"clean_input,omitempty"`
+	Victim int    `json:"victim_delivery,omitempty"`
 }
 
 type expSeg struct {
@@ -411,17 +415,66 @@ func monC03(c *child.Ctx, replay json.RawMessage) {
 // ---------------------------------------------------------------------------
 // C12: fault enumeration - corrupt one victim frame's payload/CRC.
 
+// execC12 checks the by-construction sequence and, for streams of MSM frames whose
+// timestamps only increase within one week (so that the times reported for a
+// message do not legitimately depend on whether an earlier one was accepted),
+// relationally that every message other than the victim is delivered exactly as in
+// the run without the corruption - including the time fields the handler derives
+// from its own state.  For arbitrary payloads that comparison would be stricter
+// than the property: there a discarded frame's timestamp may have been the one that
+// signalled a week rollover.
+func execC12(c *child.Ctx, k streamCase, cj []byte, cleanMsgs []handler.Message) {
+	msgs := runSequential(fixedStart, slog.LevelInfo, unhex(k.Input))
+	if why := compareSeq(msgs, k.Expect); why != "" {
+		c.Violate("corruption-not-contained", why, cj)
+		return
+	}
+	c.Count("messages_delivered_as_expected", int64(len(msgs)))
+	if k.Clean == "" {
+		return
+	}
+	if cleanMsgs == nil {
+		cleanMsgs = runSequential(fixedStart, slog.LevelInfo, unhex(k.Clean))
+	}
+	if len(cleanMsgs) != len(msgs) {
+		return // cannot happen when the by-construction check passed
+	}
+	for i := range msgs {
+		if i == k.Victim {
+			continue
+		}
+		a, b := &msgs[i], &cleanMsgs[i]
+		if a.Timestamp != b.Timestamp || a.SentAt != b.SentAt || a.StartOfWeek != b.StartOfWeek || a.ErrorMessage != b.ErrorMessage {
+			c.Violate("corruption-disturbs-neighbour", fmt.Sprintf("delivery %d (type %d) is reported differently because delivery %d was corrupted: SentAt %q vs %q, StartOfWeek %q vs %q, error %q vs %q",
+				i, a.MessageType, k.Victim, a.SentAt, b.SentAt, a.StartOfWeek, b.StartOfWeek, a.ErrorMessage, b.ErrorMessage), cj)
+			return
+		}
+		if a.MessageType >= 0 && a.SentAt != "" {
+			c.Count("neighbour_time_fields_compared", 1)
+		}
+	}
+}
+
 func monC12(c *child.Ctx, replay json.RawMessage) {
 	if replay != nil {
 		var k streamCase
 		json.Unmarshal(replay, &k)
 		c.Begin(replay)
-		execExpect(c, k, replay, "corruption-not-contained")
+		execC12(c, k, replay, nil)
 		return
 	}
 	r := ref.NewRand(c.Seed*49979687 + uint64(c.Batch)*67867967 + 12)
 	skippedValid := 0
+	var cleanOf gen.Stream
+	var cleanMsgs []handler.Message
+	var cleanHex string
+	relational := false // set for streams whose reported times do not depend on any single message being accepted
 	runFault := func(s gen.Stream, victim int, corrupted []byte, note string) {
+		if len(cleanOf) != len(s) || (len(s) > 0 && &cleanOf[0] != &s[0]) {
+			cleanOf = s
+			cleanHex = hexs(s.Bytes())
+			cleanMsgs = runSequential(fixedStart, slog.LevelInfo, s.Bytes())
+		}
 		if ref.IsFrame(corrupted) {
 			skippedValid++ // the corruption happened to keep the CRC valid: outside the precondition
 			return
@@ -445,9 +498,18 @@ func monC12(c *child.Ctx, replay json.RawMessage) {
 				}
 			}
 		}
-		k := streamCase{Input: hexs(t.Bytes()), Expect: toExp(exp), Note: note}
+		vd := 0
+		for i := range exp {
+			if exp[i].Type == -1 && len(exp[i].Bytes) == len(corrupted) && &exp[i].Bytes[0] == &t[victim].Bytes[0] {
+				vd = i
+			}
+		}
+		k := streamCase{Input: hexs(t.Bytes()), Expect: toExp(exp), Note: note, Victim: vd}
+		if relational {
+			k.Clean = cleanHex
+		}
 		cj := c.BeginV(k)
-		execExpect(c, k, cj, "corruption-not-contained")
+		execC12(c, k, cj, cleanMsgs)
 		hasSucc := false
 		for j := victim + 1; j < len(t); j++ {
 			if t[j].Kind == "frame" {
@@ -525,6 +587,57 @@ func monC12(c *child.Ctx, replay json.RawMessage) {
 			}
 		}
 	}
+	// streams of small well-formed MSM frames of the timed constellations with
+	// increasing legal timestamps: a corrupted victim (e.g. a flipped timestamp bit)
+	// must not change what is reported for its neighbours
+	nTimed := c.Share(c.Pick(12, 600))
+	relational = true
+	for i := 0; i < nTimed; i++ {
+		var s gen.Stream
+		ts := map[string]uint{}
+		nf := r.Range(3, 5)
+		for f := 0; f < nf; f++ {
+			cons := ref.TimedConstellations[r.Intn(2+r.Intn(3))]
+			tp := ref.TypesOf(cons)[r.Intn(2)]
+			cur := ts[cons]
+			if cur == 0 {
+				cur = uint(r.Range(1000, 300000000))
+			} else {
+				cur += uint(r.Range(1, 5000))
+			}
+			if cons == "Glonass" {
+				cur = cur % 86400000
+				if cur == 0 {
+					cur = 1000
+				}
+				ts[cons] = cur
+				cur |= 2 << 27
+			} else {
+				ts[cons] = cur
+			}
+			fb := timeFrame(r, tp, cur)
+			s = append(s, gen.Seg{Kind: "frame", Type: tp, Bytes: fb})
+			if r.Chance(1, 3) {
+				s = append(s, gen.Junk(r))
+			}
+		}
+		for v, g := range s {
+			if g.Kind != "frame" {
+				continue
+			}
+			f := g.Bytes
+			for bit := 24; bit < len(f)*8; bit++ {
+				if bit >= 24+100 && bit%3 != 0 {
+					continue // every bit of type/station/timestamp/flags, every third bit of the rest
+				}
+				gg := append([]byte(nil), f...)
+				gg[bit/8] ^= 1 << uint(7-bit%8)
+				runFault(s, v, gg, fmt.Sprintf("MSM stream, flip bit %d", bit))
+				c.Count("single_bit_flips", 1)
+			}
+		}
+	}
+	relational = false
 	// larger frames: random faults only
 	nBig := c.Share(c.Pick(300, 30000))
 	for i := 0; i < nBig; i++ {
@@ -613,6 +726,7 @@ func runScheduled(k streamCase) schedObs {
 		for _, b := range input {
 			perturb(pr, k.Prod)
 			in <- b
+			tick()
 		}
 		perturb(pr, k.Prod)
 		close(in)
@@ -623,6 +737,7 @@ func runScheduled(k streamCase) schedObs {
 		cr := ref.NewRand(k.HookSeed*5 + 2)
 		for m := range out {
 			obs.msgs = append(obs.msgs, m)
+			tick()
 			perturb(cr, k.Cons)
 		}
 		close(done)
